@@ -1,0 +1,17 @@
+//go:build verif
+
+// Copyright 2025 NVIDIA CORPORATION
+// SPDX-License-Identifier: Apache-2.0
+
+package group_mutex
+
+// SimYield, when set by the simulation harness, is told about every lock request ("lock", before
+// blocking), acquisition ("locked") and release ("unlocked") of a GPU-group mutex, so that the
+// simulator can schedule goroutines that would otherwise block on a sync.Mutex.
+var SimYield func(event, group string)
+
+func simYield(event, group string) {
+	if SimYield != nil {
+		SimYield(event, group)
+	}
+}
